@@ -29,8 +29,8 @@ ASSUMPTIONS = [
     "a step budget (sys.monitoring PY_START events) decides termination; wall-clock is only a watchdog",
 ]
 PLAN = {"quick": dict(programs=500, topologies=1400, depth=3), "thorough": dict(programs=12000, topologies=40000, depth=5)}
-FLOORS = {"quick": {"suite_graphs_judged": 80, "suite_tests_passed": 1400, "sequences_checked": 15000, "deferred_nodes_seen": 3000, "equivalences_checked": 3000, "topology_roots": 8000, "same_name_two_module_topologies": 200, "bare_and_parameterised_roots": 2000, "two_labels_one_type_roots": 1500},
-          "thorough": {"suite_graphs_judged": 80, "suite_tests_passed": 1400, "sequences_checked": 400000, "deferred_nodes_seen": 80000, "equivalences_checked": 80000, "topology_roots": 200000, "bare_and_parameterised_roots": 40000, "two_labels_one_type_roots": 25000}}
+FLOORS = {"quick": {"suite_graphs_judged": 80, "suite_tests_passed": 1400, "sequences_checked": 15000, "deferred_nodes_seen": 3000, "equivalences_checked": 3000, "topology_roots": 8000, "same_name_two_module_topologies": 200, "bare_and_parameterised_roots": 2000, "two_labels_one_type_roots": 1500, "user_generic_roots": 900},
+          "thorough": {"suite_graphs_judged": 80, "suite_tests_passed": 1400, "sequences_checked": 400000, "deferred_nodes_seen": 80000, "equivalences_checked": 80000, "topology_roots": 200000, "bare_and_parameterised_roots": 40000, "two_labels_one_type_roots": 25000, "user_generic_roots": 20000}}
 STEP_BUDGET = 2_000_000
 
 
@@ -245,6 +245,18 @@ def run_shard(sh):
                             setattr(prog.module, T.__name__, T)
                         sh.count("two_labels_one_type_roots")
                         check_root(sh, f"{src} with La, Lb = two {type(la).__name__}/{type(lb).__name__} labels of {s.src}", T, steps, prog.source)
+                # parameterised user generics: fields declared in __init__ only, and as a dataclass
+                if comps or gens:
+                    exec(f"_T{i} = typing.TypeVar('_T{i}')\n_U{i} = typing.TypeVar('_U{i}')\n"  # noqa: S102
+                         f"class GP_{i}(typing.Generic[_T{i}, _U{i}]):\n"
+                         f"    def __init__(self, first: _T{i}, rest: typing.List[_U{i}], tag: typing.Dict[str, bytes]):\n"
+                         f"        self.first, self.rest, self.tag = first, rest, tag\n"
+                         f"@dataclasses.dataclass\nclass GD_{i}(typing.Generic[_T{i}]):\n    item: _T{i}\n    items: typing.List[_T{i}]\n", prog.module.__dict__)
+                    s0 = rng.choice(comps or gens)
+                    for src in rng.sample([f"GP_{i}[int, {s0.src}]", f"list[GP_{i}[{s0.src}, str]]", f"GD_{i}[{s0.src}]", f"dict[str, GD_{i}[{s0.src}]]",
+                                           f"tuple[GD_{i}[int], GD_{i}[{s0.src}]]"], 3):
+                        sh.count("user_generic_roots")
+                        check_root(sh, src, prog.ev(src), steps, prog.source)
                 if i % 50 == 0:
                     sh.sample({"root": roots[0].src, "nodes": [repr(n) for n in graph.static_order(roots[0].t)][:6]})
             finally:
